@@ -156,31 +156,32 @@ theorem src_sb_getvalue_eq_model (st : SB) (h : st.buffer.closed = false) :
 def truncData (real : Bool) (d : List UInt8) (n : Nat) : List UInt8 :=
   if real then d.take n ++ List.replicate (n - d.length) default else d.take n
 
-/-- `truncate(size)` of an open object (no operation of the hand model corresponds; stated against the abstract file):
-    `truncate()` cuts at the position and returns it; `truncate(n)`, `n ≥ 0`, cuts at `n`, returns None and leaves the
-    position at `min pos n`; a negative size raises OSError -/
+/-- the buffer after `truncate(size)` -/
+def truncated (st : SB) : Option Int → SB
+  | none => { st with buffer := { st.buffer with
+      f := ⟨truncData st.buffer.real st.buffer.f.data st.buffer.f.pos, st.buffer.f.pos⟩, stale := false } }
+  | some n => { st with buffer := { st.buffer with
+      f := ⟨truncData st.buffer.real st.buffer.f.data n.toNat, min st.buffer.f.pos n.toNat⟩, stale := false } }
+
+/-- `truncate(size)` of an open object (no operation of the hand model corresponds; stated against the abstract file,
+    and about the OBJECT only — what the call returns is left open): `truncate()` cuts at the position;
+    `truncate(n)`, `n ≥ 0`, cuts at `n` and leaves the position at `min pos n`; a negative size raises and changes nothing -/
 theorem src_sb_truncate_eq_model (st : SB) (size : Option Int) (h : st.buffer.closed = false) :
-    SpooledBytesIO.truncate st size =
-      (match size with
-       | none => (.ok (some (st.buffer.f.pos : Int)),
-                  { st with buffer := { st.buffer with
-                      f := ⟨truncData st.buffer.real st.buffer.f.data st.buffer.f.pos, st.buffer.f.pos⟩, stale := false } })
-       | some n =>
-         if n < 0 then (.error .Other, st)
-         else (.ok none,
-               { st with buffer := { st.buffer with
-                   f := ⟨truncData st.buffer.real st.buffer.f.data n.toNat, min st.buffer.f.pos n.toNat⟩,
-                   stale := false } })) := by
+    (match size with
+     | some n => if n < 0 then (SpooledBytesIO.truncate st size).1.toBool = false ∧ (SpooledBytesIO.truncate st size).2 = st
+                 else (SpooledBytesIO.truncate st size).1.toBool = true ∧ (SpooledBytesIO.truncate st size).2 = truncated st size
+     | none => (SpooledBytesIO.truncate st size).1.toBool = true ∧ (SpooledBytesIO.truncate st size).2 = truncated st size) := by
   have hp : ¬ ((st.buffer.f.pos : Int) < 0) := by omega
   rcases size with _ | n
   · cases hr : st.buffer.real <;>
-      simp [SpooledBytesIO.truncate, SpooledBytesIO.truncate.body, checkClosed_open _ _ h, FileObj.truncate, truncData, h, hr]
+      simp [SpooledBytesIO.truncate, SpooledBytesIO.truncate.body, checkClosed_open _ _ h, src_sb_tell_eq_model,
+        FileObj.truncate, truncData, truncated, Except.toBool, h, hr]
   · by_cases hn : n < 0
-    · simp [SpooledBytesIO.truncate, SpooledBytesIO.truncate.body, checkClosed_open _ _ h, hn, PyRt.unwrap]
+    · simp [SpooledBytesIO.truncate, SpooledBytesIO.truncate.body, checkClosed_open _ _ h, hn, PyRt.unwrap, Except.toBool]
     · by_cases hlt : (st.buffer.f.pos : Int) < n <;> cases hr : st.buffer.real <;>
         simp [SpooledBytesIO.truncate, SpooledBytesIO.truncate.body, checkClosed_open _ _ h, src_sb_tell_eq_model,
-          src_sb_seek_eq_model, onBuf, FileObj.seek, FileObj.target, FileObj.truncate, File.seek, truncData,
-          h, hn, hp, hlt, hr, PyRt.unwrap] <;> omega
+          src_sb_seek_eq_model, onBuf, FileObj.seek, FileObj.target, FileObj.truncate, File.seek, truncData, truncated,
+          Except.toBool, h, hn, hp, hlt, hr, PyRt.unwrap] <;> omega
 
 /-! ## 2. SpooledBytesIO against the hand model `SBytes` -/
 
@@ -422,8 +423,8 @@ example : (SpooledBytesIO.read { buffer := { (FileObj.newMem : FileObj UInt8) wi
 /-- `len` on a temporary file with unflushed appended data: the `seek(0)` comes first, so `fstat` is specified -/
 example : (SpooledBytesIO.len { buffer := ⟨⟨[1, 2, 3], 3⟩, false, true, true⟩, max_size := 1, dir := () }).1 = .ok 3 := by
   decide
-example : (SpooledBytesIO.truncate { buffer := ⟨⟨[1, 2, 3], 3⟩, false, false, false⟩, max_size := 9, dir := () } (some 1))
-    = (.ok none, { buffer := ⟨⟨[1], 1⟩, false, false, false⟩, max_size := 9, dir := () }) := by decide
+example : (SpooledBytesIO.truncate { buffer := ⟨⟨[1, 2, 3], 3⟩, false, false, false⟩, max_size := 9, dir := () } (some 1)).2
+    = { buffer := ⟨⟨[1], 1⟩, false, false, false⟩, max_size := 9, dir := () } := by decide
 
 /-! ## 3. MultiFileReader against the hand model `MFR` -/
 
@@ -611,21 +612,39 @@ theorem mfr_loop_sim (n : Nat) : ∀ (k : Nat) (s : MultiFileReader.read.St β) 
       simp
       exact ⟨hr, hp⟩
 
+/-- the same, for a run of the loop given by its equation (so that a proof never has to write the record of locals) -/
+theorem mfr_loop_sim_of_eq (n k : Nat) (s s' : MultiFileReader.read.St β) (fl : Flow (List β)) (m : MFR β) (a : Nat)
+    (parts : List (List β))
+    (heq : whileLoop MultiFileReader.read.loop1.cond MultiFileReader.read.loop1.body n s = (fl, s'))
+    (hr : RelM s.self m) (ha : s.amt = some (a : Int)) (hp : s.loc1 = parts.reverse)
+    (hn : mfrMeasure m a < n) (hk : mfrMeasure m a < k) :
+    fl = .next ∧
+    RelM s'.self (MFR.readLoop k m a parts).2 ∧ s'.loc1 = (MFR.readLoop k m a parts).1.reverse := by
+  obtain ⟨s2, hs2, hrel, hparts⟩ := mfr_loop_sim n k s m a parts hr ha hp hn hk
+  rw [hs2] at heq
+  cases heq
+  exact ⟨rfl, hrel, hparts⟩
+
 /-- `read(amt)`, `amt > 0`: the loop over the members — `MFR.read`, for every fuel the model's own bound allows -/
 theorem src_mfr_read_sized_eq_model (lfuel : Nat) (st : MS β) (m : MFR β) (n : Nat) (h : RelM st m)
     (hfuel : m.files.length - m.index + 2 ≤ lfuel) :
     (MultiFileReader.read lfuel st (some ((n + 1 : Nat) : Int))).1 = .ok (m.read (some (n + 1))).1 ∧
     RelM (MultiFileReader.read lfuel st (some ((n + 1 : Nat) : Int))).2 (m.read (some (n + 1))).2 := by
   have hmu : mfrMeasure m (n + 1) = m.files.length - m.index + 1 := by simp [mfrMeasure]
-  obtain ⟨s', hs', hrel, hparts⟩ := mfr_loop_sim lfuel (m.files.length - m.index + 2)
-    { self := st, amt := some ((n + 1 : Nat) : Int), loc1 := [], loc2 := 0 } m (n + 1) [] h rfl rfl
-    (by omega) (by omega)
   have ht : truthyOptInt (some ((n + 1 : Nat) : Int)) = true := by
     simp [truthyOptInt]; omega
-  have hj : s'.self.joiner = [] := hrel.joiner
   simp only [MultiFileReader.read, MultiFileReader.read.body, seq_apply, cond_apply, ht, assign_apply, skip_apply,
-    decide_not, decide_true, Bool.not_true, Bool.false_eq_true, if_false, hs', ret_apply, finish_ret]
-  exact ⟨by simp [MFR.read, hj, join_nil, hparts], by simpa [MFR.read] using hrel⟩
+    decide_not, decide_true, Bool.not_true, Bool.false_eq_true, if_false, ret_apply]
+  split
+  · rename_i x s1 heq
+    obtain ⟨_, hrel, hparts⟩ := mfr_loop_sim_of_eq lfuel (m.files.length - m.index + 2) _ _ _ m (n + 1) [] heq
+      (by simpa using h) (by simp) (by simp) (by omega) (by omega)
+    have hj : s1.self.joiner = [] := hrel.joiner
+    exact ⟨by simp [MFR.read, hj, join_nil, hparts], by simpa [MFR.read] using hrel⟩
+  · rename_i x fl s1 hne heq
+    obtain ⟨hfl, _, _⟩ := mfr_loop_sim_of_eq lfuel (m.files.length - m.index + 2) _ _ _ m (n + 1) [] heq
+      (by simpa using h) (by simp) (by simp) (by omega) (by omega)
+    exact absurd hfl hne
 
 /-- the amount `read(amt)` asks the model for -/
 def amtOf : Option Int → Option Nat
